@@ -112,7 +112,6 @@ func scanTotal(c *Ctx) {
 
 var _ = token.ADD
 
-
 // delegatedStop: the edge leaves the loop on the result of calling a function-typed parameter of fn.
 func delegatedStop(fn *ssa.Function, e an.Edge) bool {
 	if len(e.From.Instrs) == 0 {
